@@ -547,8 +547,8 @@ func (db *Database) performFuzzySearch(query string, options SearchOptions) []Se
 	matches := fuzzy.Find(query, targets)
 
 	var results []SearchResult
-	for i, match := range matches {
-		if i >= options.Limit*2 { // Get more for better selection
+	for _, match := range matches {
+		if len(results) >= options.Limit { // never return more than the requested number of results
 			break
 		}
 
